@@ -383,10 +383,12 @@ impl InlineTable {
         value: V,
     ) -> &mut Value {
         let key = key.into();
-        self.items
-            .entry(Key::new(key))
-            .or_insert(Item::Value(value.into()))
-            .as_value_mut()
+        let item = self.items.entry(Key::new(key)).or_insert(Item::None);
+        if item.is_none() {
+            // a placeholder left by mutable indexing counts as absent
+            *item = Item::Value(value.into());
+        }
+        item.as_value_mut()
             .expect("non-value type in inline table")
     }
 
